@@ -36,7 +36,12 @@ ARMS = [
     arm("Exp", "OpCode::Exp(k)", [Closure(0, "pb: Value, pe: Value", "(r: Option<Value>)", first_stmt="let b = pb; let e = pe;", ensures=[C("op", "r == sem_bin(OpCode::Exp(gk), pb, pe)", "C10")])],
         rewrites=[("SUB", "let mut k: u16 = (k as u16)+1;", "let ghost kk = k as nat; let ghost b0 = b@; let ghost e0 = e@; let ghost mut it: nat = 0; let mut k: u16 = (k as u16)+1; proof { vstd::arithmetic::power2::lemma2_to64(); assert(e0 / vstd::arithmetic::power2::pow2(0) == e0); vstd::arithmetic::power::lemma_pow0(b0 as int); assert(1 * vstd::arithmetic::power::pow(b0 as int, e0) == vstd::arithmetic::power::pow(b0 as int, e0)); }"),
                   ],
-        injects=[Inject("entry", "let ghost gk = k;"), Inject("before_tail", ARM_HINT % "OpCode::Exp(k)"), Inject(("before", "Some(Value::Int(res))"), "proof { vstd::arithmetic::power::lemma_pow0(b@ as int); vstd::arithmetic::power2::lemma_pow2_pos(it); lemma_exp_budget_ok(e0, it, kk); assert(res@ < m256()); vstd::arithmetic::div_mod::lemma_small_mod(res@, m256()); }")],
+        injects=[Inject("entry", "let ghost gk = k;"), Inject("before_tail", ARM_HINT % "OpCode::Exp(k)"), Inject(("before", "Some(Value::Int(res))"), """proof { let m = m256() as int; let n = (vstd::arithmetic::power::pow(b0 as int, e0) % m) as nat;
+            vstd::arithmetic::power2::lemma_pow2_pos(256); vstd::arithmetic::power::lemma_pow0(b@ as int); vstd::arithmetic::power2::lemma_pow2_pos(it); lemma_exp_budget_ok(e0, it, kk);
+            assert(e@ == 0); assert(vstd::arithmetic::power::pow(b@ as int, 0) == 1); assert(res@ * 1 == res@);
+            assert(res@ < m256()); vstd::arithmetic::div_mod::lemma_small_mod(res@, m256()); assert(res@ == n);
+            assert(exp_sem(b0, e0, kk) == Some(n)); assert(n < m256()); assert(u256_of(n)@ == n); assert(res == u256_of(n));
+            assert(sem_bin(OpCode::Exp(gk), pb, pe) == Some(vint(n))); }""")],
         loops=[Loop(0, decreases="e@",
             body_entry="let ghost ee = e@; let ghost bb = b@; let ghost rr = res@; proof { vstd::arithmetic::power2::lemma_pow2_pos(256); if k == 0 { lemma_exp_budget_fail(e0, kk); assert(exp_sem(b0, e0, kk) is None); } }",
             body_exit="proof { lemma_exp_step(rr as int, bb as int, ee, m256() as int); vstd::arithmetic::power2::lemma_pow2_unfold((it + 1) as nat); vstd::arithmetic::power2::lemma_pow2_pos(it); vstd::arithmetic::div_mod::lemma_div_denominator(e0 as int, vstd::arithmetic::power2::pow2(it) as int, 2); it = it + 1; }",
